@@ -88,6 +88,15 @@ func NewFileCache[MetadataT any](cfg *config.Config, rootDir string, maxCacheSiz
 			c.mu.RUnlock()
 			return ok && meta.Expires.Before(time.Now())
 		},
+		lastAccess: func(key CacheKey) (time.Time, bool) {
+			c.mu.RLock()
+			meta, ok := c.entriesMetadata[key]
+			c.mu.RUnlock()
+			if !ok {
+				return time.Time{}, false
+			}
+			return meta.LastAccess, true
+		},
 		getLock: func(key CacheKey) *sync.RWMutex {
 			return getLock(c.locks, key)
 		},
